@@ -6,6 +6,7 @@ from PseudoNetCDF.pncwarn import warn
 from collections import OrderedDict
 from ._dimensions import PseudoNetCDFDimension, PseudoNetCDFDimensions
 from ._variables import PseudoNetCDFVariable, PseudoNetCDFMaskedVariable
+from ._variables import _plainarray
 import numpy as np
 
 
@@ -1768,7 +1769,8 @@ class PseudoNetCDFFile(PseudoNetCDFSelfReg, object):
                 else:
                     dvar = np.arange(len(dv))
                 if isinstance(df, str):
-                    newdl = getattr(dvar[...], df)(keepdims=True).size
+                    newdl = getattr(_plainarray(dvar[...]), df)(
+                        keepdims=True).size
                 elif isinstance(df, dict):
                     # the documented dictionary form: func1d and its keywords
                     dfkw = dict(df)
@@ -1806,7 +1808,9 @@ class PseudoNetCDFFile(PseudoNetCDFSelfReg, object):
                         opts['func1d'] = dfunc
                         noopts = True
                     if noopts and isinstance(dfunc, str):
-                        newvals = getattr(newvals, dfunc)(
+                        # on the plain array: a variable attribute may have
+                        # the name of the reducer (max = 5.)
+                        newvals = getattr(_plainarray(newvals), dfunc)(
                             axis=di, keepdims=True)
                     else:
                         newvals = np.apply_along_axis(**opts)
